@@ -18,7 +18,7 @@
 //        return the string -> count=<k> bad=<m> digest=<fnv1a64 of all encodings>
 //   b|B <c|i> <hex header>          Auth::Basic::Config::decode() with casesensitive on (c) / off (i), utf8 off
 //        -> none | user=<hex> pass=<hex|null> deny=<nopass|empty|-> type=<basic|broken>
-//   --dump-tables                   decode table, alphabet and length macros of both implementations
+//   --dump-tables                   decode table, alphabet, length macros and pad limit of both implementations
 // <chunks>: "-" = one chunk with everything, else comma separated lengths (the remainder, if any, is a last chunk).
 // Any canary damage or a count beyond the size the API promises is reported as a leading "OVF ".
 #include "squid.h"
@@ -323,6 +323,15 @@ static void dumpTables() {
         printf("\n%s raw_length", names[k]);
         for (size_t n = 0; n <= 100; ++n) printf(" %zu", I.raw_length(n));
         printf("\n%s final_length %zu\n", names[k], I.final_length);
+        // number of pad characters after which another one is refused: '=' offered with bits = 2, word = 0, padding = p
+        unsigned lim = 0;
+        for (; lim < 8; ++lim) {
+            I.dec_init();
+            I.dec_set(0, 2, lim);
+            uint8_t b = 0;
+            if (I.dec_single(&b, '=') != 0) break;
+        }
+        printf("%s pad_limit %u\n", names[k], lim);
     }
     printf("basic cleartext_extra %ld\n", cleartextAlloc());
 }
